@@ -283,6 +283,9 @@ def resize_bounded(arg, call, body, pos, end):
                 return True, 'initialised from end - pos'
         for cond, pol, kind in dominating_guards(call, body):
             b = cond.bin
+            if kind.startswith('early-exit') and pol is False and b is not None and b[0] in ('<', '<=') \
+                    and is_ref(uncast(b[2]), a.ref) and mentions_remaining(b[1], pos, end):
+                b = ({'<': '>', '<=': '>='}[b[0]], b[2], b[1])          # remaining < n  ==  n > remaining
             if kind.startswith('early-exit') and pol is False and b is not None and b[0] in ('>', '>=') \
                     and is_ref(uncast(b[1]), a.ref) and mentions_remaining(b[2], pos, end):
                 # the comparison must be unsigned at full width: a signed comparison lets a counter with the top bit set
